@@ -25,6 +25,7 @@ under STRICT is `inconclusive` when it disagrees, never a violation.
 from __future__ import annotations
 
 import signal
+import time
 from fractions import Fraction
 
 from ..engine.runner import BaseCheck, ShardResult
@@ -47,6 +48,18 @@ KF_VALUE = 3
 # strategy instances
 
 def strategy_instances(tier: str):
+    """Every strategy instance of the tier.  `allsites`: the instance is also aimed at each index
+    and each cursor (thorough: every instance; quick: one representative per strategy and remainder
+    strategy -- site selection does not depend on the count / factor); otherwise where=None only."""
+    inst = _instances(tier)
+    for spec in inst:
+        if spec['name'] in ('elim_iter', 'fuse'):
+            continue
+        spec['allsites'] = tier != 'quick' or spec.get('times') == 2 or spec.get('factor') == 3
+    return inst
+
+
+def _instances(tier: str):
     inst = []
     for times in (1, 2, 3, 4):
         for st in ('PEEL', 'STRICT'):
@@ -241,6 +254,31 @@ def show_outcome(o) -> str:
     return 'does not terminate (time limit)'
 
 
+# where a reduction sits decides when (and how often) the original evaluates it
+POSITION_CLASS = {
+    'and-rhs': 'short-circuit-operand', 'or-rhs': 'short-circuit-operand',
+    'ifexp-then': 'ifexp-branch', 'ifexp-else': 'ifexp-branch',
+    'while-cond': 'while-cond',
+    'while-body': 'loop-body', 'for-body': 'loop-body', 'if-body': 'if-body',
+    'comp-elt': 'in-comprehension', 'comp-iter': 'in-comprehension',
+}
+
+
+def signature_base(spec, tags):
+    """The class of a failure: which rewrite, on what kind of loop, with which of the hazards the
+    property names (in-place mutation of a source, numbered user names, a narrow ambient context,
+    where a reduction sits, what its element does)."""
+    fam = tags.get('family', '-')
+    pos = tags.get('position', '-')
+    return {'strategy': spec['name'], 'remainder': spec.get('remainder', '-'),
+            'iter': tags.get('iter', '-'), 'site': tags.get('site', '-'),
+            'mut': tags.get('mut', '-'),
+            'position': POSITION_CLASS.get(pos, 'unconditional') if fam == 'R' else '-',
+            'elt': tags.get('elt', '-'),
+            'names': 'numbered' if tags.get('scheme') == 'num' else 'plain',
+            'ctx': 'ambient' if tags.get('ctx', 'ambient') == 'ambient' else 'narrow'}
+
+
 # ---------------------------------------------------------------------------
 
 class Check(BaseCheck):
@@ -264,7 +302,10 @@ class Check(BaseCheck):
         super().__init__(tier, seed)
         self._progs = None
         self.instances = strategy_instances(tier)
-        self.inputs = G.inputs(tier)
+        self.inputs_flat = G.inputs(tier, False)
+        self.inputs_nested = G.inputs(tier, True)
+        self.inputs = self.inputs_flat
+        self.kvalues = (1, 3) if tier == 'quick' else (1, 2, 3, 4)
 
     def programs(self):
         if self._progs is None:
@@ -280,8 +321,11 @@ class Check(BaseCheck):
             fam[p.family] = fam.get(p.family, 0) + 1
         return {'programs': len(ps), 'core_programs': self._ncore, 'seed_slice_programs': len(ps) - self._ncore,
                 'programs_by_family': fam, 'strategy_instances': len(self.instances),
-                'lengths': '0..9', 'value_patterns': 1 if self.tier == 'quick' else 2,
-                'variable_factor_values': [1, 2, 3, 4], 'unroll_for_times': '1..4', 'unroll_while_times': '1..3',
+                'lengths': '0..9 (programs with a nested loop: 0..6, 8)',
+                'value_patterns': 1 if self.tier == 'quick' else 2,
+                'site_selection': 'None, each index, each cursor' + (' (index/cursor for times=2 and factor=3 only)'
+                                                                     if self.tier == 'quick' else ''),
+                'variable_factor_values': list(self.kvalues), 'unroll_for_times': '1..4', 'unroll_while_times': '1..3',
                 'split_factors': '1..4, k, KF', 'body_sequence_length': '<=2 (core pool), 1 (all)' if
                 self.tier == 'quick' else '<=2 (all), 3 (core pool, main headers)'}
 
@@ -293,10 +337,7 @@ class Check(BaseCheck):
               spec: dict, where: list, seen_texts: dict, only_input=None):
         """Transforms and runs.  `originals` caches the original's outcome per input."""
         scheme = tags.get('scheme', 'plain')
-        sigbase = {'strategy': spec['name'], 'remainder': spec.get('remainder', '-'),
-                   'iter': tags.get('iter', '-'), 'site': tags.get('site', '-'),
-                   'mut': tags.get('mut', '-'), 'position': tags.get('position', '-'),
-                   'ctx': 'ambient' if tags.get('ctx', 'ambient') == 'ambient' else 'narrow'}
+        sigbase = signature_base(spec, tags)
         case = {'src': prog_src, 'tags': tags, 'spec': spec, 'where': where}
         r.count('transforms')
         try:
@@ -330,18 +371,21 @@ class Check(BaseCheck):
             factor = spec['times'] + 1 if spec['name'] == 'unroll_for' else spec['factor']
         statics = static_lists(f) if strict else {}
 
-        ks = (1, 2, 3, 4) if spec.get('factor') == 'k' else (2,)
+        ks = self.kvalues if spec.get('factor') == 'k' else (2,)
         nstates = 0
         timed_out = False
         for (xs, ys) in (self.inputs if only_input is None else [only_input[:2]]):
             for k in (ks if only_input is None else (only_input[2],)):
                 nstates += 1
-                okey = (tuple(xs), tuple(ys), k if spec.get('factor') == 'k' else 2)
                 # the original does not read k: one run per (xs, ys)
                 okey0 = (tuple(xs), tuple(ys))
                 if okey0 not in originals:
                     originals[okey0] = run(f, xs, ys, 2)
                 o = originals[okey0]
+                if o[0] == 'timeout':
+                    # the grammar makes every original terminate; if one does not, the generator is wrong
+                    raise RuntimeError('generated program does not terminate on '
+                                       f'xs={list(xs)} ys={list(ys)}:\n{prog_src}')
                 if o[0] != 'ret':
                     r.count('original_raises')
                     r.outcomes['original ' + (o[1] if o[0] == 'exc' else 'timeout')] += 1
@@ -392,6 +436,7 @@ class Check(BaseCheck):
             r.notes.append(f'front end rejected a generated program ({type(e).__name__}): {p.tags}')
             return
         r.count('programs')
+        self.inputs = self.inputs_nested if 'nested' in p.tags.get('features', '') else self.inputs_flat
         originals = {}
         seen = {}
         for spec in self.instances:
@@ -409,7 +454,9 @@ class Check(BaseCheck):
                 if n == 0:
                     r.outcomes[f'{name}:no-site'] += 1
                     continue
-                wheres = [['none']] + [['index', i] for i in range(n)] + [['cursor', i] for i in range(n)]
+                wheres = [['none']]
+                if spec.get('allsites'):
+                    wheres += [['index', i] for i in range(n)] + [['cursor', i] for i in range(n)]
             for where in wheres:
                 self.judge(r, p.src, p.tags, f, orig_text, originals, spec, where, seen)
         if len(r.samples) < 2 and seen:
@@ -418,9 +465,11 @@ class Check(BaseCheck):
     def run_shard(self, shard) -> ShardResult:
         i, m = shard
         r = ShardResult()
+        t0 = time.process_time()
         for j, p in enumerate(self.programs()):
             if j % m == i:
                 self.check_program(r, p)
+        r.count('cpu_ms', int(1000 * (time.process_time() - t0)))     # informational only
         return r
 
     def selfcheck(self):
